@@ -1,6 +1,6 @@
 // Package c19: walk, transform and paths address exactly the members of a value.
 //
-// Files: model.go (independent enumeration of "the members of a value"),
+// Files: retain.go (argument / repeatability / earlier-result snapshots), model.go (independent enumeration of "the members of a value"),
 // walk.go (Walk / Transform / TransformWithTransformer / marks-by-path clauses),
 // apply.go (Path.Apply succeeds iff every step names a member), pathset.go
 // (PathSet / Path.Equals / Path.HasPrefix histories against a model set),
